@@ -231,7 +231,9 @@ func c17Mid(r *vk.Run, rng *rand.Rand, index int, base string) {
 			d, _ := sp.stage(path, fsx.UniqueToken(rng, 50+rng.Intn(500)))
 			return &core.Entry{Kind: core.EntryKind_File, Digest: d}
 		}
-		old := func(n string) *core.Entry { return &core.Entry{Kind: core.EntryKind_File, Digest: fsx.Sha1(content[n])} }
+		old := func(n string) *core.Entry {
+			return &core.Entry{Kind: core.EntryKind_File, Digest: fsx.Sha1(content[n])}
+		}
 		var changes []*core.Change
 		var kinds []string
 		var mustFail []bool
